@@ -73,7 +73,7 @@ def parseRoute (s : String) : Route :=
 def parseList (s : String) : List Bytes := (splitNE s ",").filterMap fromHex
 
 def parseReq (m : List (String × String)) : Req :=
-  { pid := lookB m "pid", pw := lookB m "pw", rm := lookF m "rm", redir := lookB m "redir",
+  { pid := lookB m "pid", pw := lookB m "pw", rm := lookF m "rm", rmOther := lookF m "rmo", redir := lookB m "redir",
     token := match look m "tok" with | some "bad" => none | some h => fromHex h | none => some [],
     tokenRaw := lookB m "tokraw", code := lookB m "code", rcode := lookB m "rcode", phone := lookB m "phone",
     state := lookB m "state", oerr := lookB m "oerr", ocode := lookB m "ocode", provider := lookB m "prov",
